@@ -419,24 +419,25 @@ def eCallDeferred : Nat → Prog → DRef → JsVal → Bool → Nat → JS → 
         | none => s
       ({ s with off := s.off + 1 }, cc)
 
-/-- the `while (true)` loop of `$callDeferred` (goroutines.js:40-87); also returns the current value
-    of the variable `deferred` (needed by the catch clause). -/
+/-- the `while (true)` loop of `$callDeferred` (goroutines.js:40-87), lines 41-61: resolve the variable
+    `deferred`; also returns its current value (needed by the catch clause). -/
 def eLoop : Nat → Prog → DRef → Option Val → Bool → Nat → JS → JS × Comp × DRef
   | 0, _, deferred, _, _, _, s => (s, .oof, deferred)
   | fuel+1, P, deferred, localV, fromPanic, c, s =>
-    -- :41-61
-    let pick : DRef := match deferred with
-      | .null => (match s.deferStack.head? with | some id => .id id | none => .undef)
-      | d => d
-    match pick with
-    | .null => (s, .throw .typeErr, .null)   -- unreachable
-    | .undef =>
-      (match deferred with
-       | .null =>
-         -- :43-60 the panic reached the top of the stack
-         ({ s with psd := none }, .throw (match localV with | some v => .goErr v | none => .typeErr), .undef)
-       | _ => (s, .throw .typeErr, .undef))  -- `undefined.pop()`
-    | .id id =>
+    match deferred with
+    | .undef => (s, .throw .typeErr, .undef)      -- `undefined.pop()` (unreachable)
+    | .id id => eStep fuel P id localV fromPanic c s
+    | .null =>
+      match s.deferStack.head? with
+      | some id => eStep fuel P id localV fromPanic c s
+      | none =>
+        -- :43-60 the panic reached the top of the stack (`deferred` is now `undefined`)
+        ({ s with psd := none }, .throw (match localV with | some v => .goErr v | none => .typeErr), .undef)
+
+/-- lines 62-86 of the loop body with `deferred` = the array `id` -/
+def eStep : Nat → Prog → Nat → Option Val → Bool → Nat → JS → JS × Comp × DRef
+  | 0, _, id, _, _, _, s => (s, .oof, .id id)
+  | fuel+1, P, id, localV, fromPanic, c, s =>
     -- :62-70
     match s.list id with
     | [] =>
